@@ -27,6 +27,8 @@ PROFILES = [
     ('nested',    2, dict(reexport=0.9, roots=(1, 3), nested=0.6, subpkg=0.8, relative=0.8)),
     ('cyclic-bottom', 3, dict(reexport=0.9, roots=(1, 2), cyclic=True, back_edge_bottom=True, imports_last=True, star=0.3,
                               private_mods=0.8, class_imports=0.0, tc_guard=0.0)),
+    # the defining module also binds the re-exported name by an import (accelerator idiom: class X ... try: from ._speedups import X)
+    ('shadow',    2, dict(reexport=0.9, roots=(1, 2), shadow_import=0.6, private_mods=0.8, star=0.2)),
     ('rebind',    3, dict(reexport=0.9, roots=(1, 2), rebind_same=0.6, star=0.6, imports=(1, 4), private_mods=0.8)),
 ]
 
@@ -35,7 +37,7 @@ def world_ok(world: Dict[str, Any]) -> bool:
     t = world['truth']
     if t['cyclic'] and not world['profile'].get('imports_last'):
         return False
-    return not t['exotic'] and any(t['reexporters'].values())
+    return not (set(t['exotic']) - {'shadow_import'}) and any(t['reexporters'].values())
 
 
 def oracle(world: Dict[str, Any], system: Any) -> List[Any]:
